@@ -403,7 +403,18 @@ def run(job, seed):
                            names)
             elif tool.startswith('upgrade'):
                 fmt = tool.split('-')[1]
-                w.write('in.yaml', world.dumps_policy(f))
+                # the operator's file as operators write them: YAML; JSON
+                # indented with tabs; and, when it overrides nothing, a file
+                # of comments only or of no bytes at all
+                if not f:
+                    in_text = ('', '# no overrides here\n',
+                               world.dumps_policy(f))[idx % 3]
+                elif idx % 3 == 1:
+                    in_text = json.dumps(f, indent='\t')
+                else:
+                    in_text = world.dumps_policy(f)
+                case['input_text'] = in_text[:60]
+                w.write('in.yaml', in_text)
                 nss = {'ns': defaults}
                 if fmt == '2ns':
                     # the service's defaults come from two namespaces
@@ -430,8 +441,7 @@ def run(job, seed):
                     bad('raises', 'policy-upgrade failed: %s' % err)
                     continue
                 names = sorted((set(reg_names) | set(f)) - set(succ))
-                a = vector(P, defaults, {'policy.yaml': world.dumps_policy(f)},
-                           names)
+                a = vector(P, defaults, {'policy.yaml': in_text}, names)
                 b = vector(P, defaults, {'policy.yaml': w.read(out_rel)},
                            names)
             else:
